@@ -41,6 +41,18 @@ fn check_inner(p: &str) -> Option<String> {
         }
         match Regex::new(p) {
             Err(Error::ParseError(pos, _)) if pos > p.len() => Some(format!("parse error position {} > pattern length {}", pos, p.len())),
+            Ok(re) => {
+                // what Regex::new accepts must be runnable: a search on two tiny texts may fail with an Err, never panic (C05 / C06)
+                // (a counted repeat with an astronomically large count over an empty-matching body, e.g. `\\K{18446744073709551615}`, makes the VM
+                // loop that many times: finite, hence not a violation of the stated properties, but it would never return here)
+                let big = p.as_bytes().windows(4).any(|w| w.iter().all(|b| b.is_ascii_digit()));
+                if p.len() <= 64 && !big {
+                    for t in ["", "a1 \u{e9}b"] {
+                        let _ = re.captures(t);
+                    }
+                }
+                None
+            }
             _ => None,
         }
     })) {
